@@ -267,7 +267,9 @@ type retPoint struct {
 type Engine struct {
 	wireEach    *Closure // predicate every sent frame must satisfy (vWireEach of the harness under verification)
 	inWireEach  bool
+	oblBase     string // when set, obligations are named after this instead of the call chain
 	branchCache map[string]bool
+	mapQuantCache map[string]*Term
 	strKeysUsed bool // a string-keyed map was accessed: string equality is tied to the key identity
 	prog      *ssa.Program
 	pkgs      map[string]*ssa.Package
@@ -547,6 +549,9 @@ func (e *Engine) oblige(fr *Frame, st *State, kind string, instr ssa.Instruction
 		k = "spec-" + kind
 	}
 	base := fmt.Sprintf("%s%s#%s", fr.prefix, fnName(fr.fn), k)
+	if e.oblBase != "" {
+		base = e.oblBase + "#" + k
+	}
 	e.oblCounts[base]++
 	name := fmt.Sprintf("%s@%d", base, e.oblCounts[base])
 	if e.forceOrdinal > 0 {
@@ -922,7 +927,24 @@ func (e *Engine) allocObject(st *State, t types.Type) *Addr {
 }
 
 func (e *Engine) bumpAllocs(st *State) {
+	if len(e.stack) > 0 {
+		top := e.stack[len(e.stack)-1]
+		// ghost code does not run; go/ssa's escape flag is conservative for the value-type
+		// helpers of net/netip, which do not allocate (assumption, listed in the evidence)
+		if isVerifFunc(top) || strings.HasPrefix(top.Name(), "VerifSpec") {
+			return
+		}
+		if top.Pkg != nil && !strings.HasPrefix(top.Pkg.Pkg.Path(), "github.com/irai/packet") {
+			if _, ok := st.ghost["allocs"]; ok {
+				e.assumedExterns["allocation counting (vAllocs) covers repository code: inlined "+top.Pkg.Pkg.Path()+" helpers are taken to be allocation-free"] = true
+			}
+			return
+		}
+	}
 	if a, ok := st.ghost["allocs"]; ok {
+		if os.Getenv("GOVC_DEBUG_ALLOC") != "" && len(e.stack) > 0 {
+			fmt.Fprintf(os.Stderr, "alloc in %s\n", e.stack[len(e.stack)-1])
+		}
 		st.ghost["allocs"] = BVAdd(a, BVConst(1, 64))
 	}
 }
@@ -1065,7 +1087,7 @@ func (e *Engine) equal(fr *Frame, st *State, x, y Value, tx, ty types.Type) *Ter
 	case *types.Basic:
 		if u.Info()&types.IsString != 0 {
 			eq := e.strEq(st, x.T, y.T)
-			if !eq.IsConst() && e.strKeysUsed {
+			if !eq.IsConst() {
 				// the key identity used for string-keyed maps is injective on string values
 				st.assume(Eq(eq, Eq(e.strID(st, x.T), e.strID(st, y.T))))
 			}
@@ -1146,6 +1168,13 @@ func (e *Engine) strEq(st *State, a, b []*Term) *Term {
 	if a[0] == b[0] && a[1] == b[1] && a[2] == b[2] {
 		return True
 	}
+	// a string chosen by a condition (merged control flow): compare each alternative
+	if c, x, y, ok := splitStrIte(a); ok {
+		return Ite(c, e.strEq(st, x, b), e.strEq(st, y, b))
+	}
+	if c, x, y, ok := splitStrIte(b); ok {
+		return Ite(c, e.strEq(st, a, x), e.strEq(st, a, y))
+	}
 	lenEq := Eq(a[2], b[2])
 	if lenEq == False {
 		return False
@@ -1172,7 +1201,17 @@ func (e *Engine) strEq(st *State, a, b []*Term) *Term {
 	if x[0].id > y[0].id {
 		x, y = y, x
 	}
-	r := UF(fmt.Sprintf("streq.m%d", m.id), BoolSort, x[0], x[1], x[2], y[0], y[1], y[2])
+	// version of the byte memory as far as the two regions are concerned
+	mid := -1
+	for _, rg := range []*Term{x[0], y[0]} {
+		if em := effectiveMem(m, rg); em != nil && em.id > mid {
+			mid = em.id
+		}
+	}
+	if mid < 0 {
+		mid = m.id
+	}
+	r := UF(fmt.Sprintf("streq.m%d", mid), BoolSort, x[0], x[1], x[2], y[0], y[1], y[2])
 	// equal strings have equal length
 	st.assume(Implies(r, lenEq))
 	return r
@@ -1816,6 +1855,7 @@ func (e *Engine) execInstr1(fr *Frame, st *State, in ssa.Instruction) {
 		t := x.Type().(*types.Pointer).Elem()
 		_, isArr := t.Underlying().(*types.Array)
 		if (x.Heap && !capturedOnly(x)) || isArr {
+			allocsBefore, hadAllocs := st.ghost["allocs"]
 			a := e.allocObject(st, t)
 			if !x.Heap && isArr {
 				fr.localRegions = append(fr.localRegions, a.region.val.Uint64())
@@ -1823,8 +1863,8 @@ func (e *Engine) execInstr1(fr *Frame, st *State, in ssa.Instruction) {
 					fr.firstMemID = memNext
 				}
 				// stack arrays do not count as heap allocations
-				if g, ok := st.ghost["allocs"]; ok {
-					st.ghost["allocs"] = BVSub(g, BVConst(1, 64))
+				if hadAllocs {
+					st.ghost["allocs"] = allocsBefore
 				}
 			}
 			fr.regs[x] = Value{A: a}
@@ -2168,4 +2208,30 @@ func capturedOnly(x *ssa.Alloc) bool {
 		}
 	}
 	return closure
+}
+
+// splitStrIte: the three leaves of a string are ite(c, x_i, y_i) on one common condition
+// (leaves equal in both alternatives stay as they are).
+func splitStrIte(s []*Term) (c *Term, x, y []*Term, ok bool) {
+	for _, l := range s[:3] {
+		if l.op == "ite" {
+			c = l.args[0]
+			break
+		}
+	}
+	if c == nil {
+		return nil, nil, nil, false
+	}
+	for _, l := range s[:3] {
+		if l.op == "ite" && l.args[0] == c {
+			x = append(x, l.args[1])
+			y = append(y, l.args[2])
+		} else if l.op == "ite" {
+			return nil, nil, nil, false
+		} else {
+			x = append(x, l)
+			y = append(y, l)
+		}
+	}
+	return c, x, y, true
 }
